@@ -6,7 +6,8 @@ From Cffi Require Import C28.Gen C28.Model.
 
 (* the proofs are about the code as it is: the fast-path switch inside the success branch.  If the
    regenerated Gen.v says otherwise, [ustep] fails and every theorem about [step] stops checking. *)
-Ltac ustep := unfold step, step_gen; change gen_switch_in_success with true; cbv beta iota zeta.
+Definition cstep := core true.
+Ltac ustep := unfold cstep, core; cbv beta iota zeta.
 
 (* ------------------------------------------------------------------ projections *)
 Lemma updf_same {A} (f : nat -> A) i v : updf f i v i = v.
@@ -23,7 +24,7 @@ Ltac step_cases s t c :=
 
 Ltac simp_state :=
   unfold enter_py, set_stack, set_lib, set_spin, set_py, set_bad, add_zero in *;
-  cbn [nthr stacks spin pyinit pycount libs bad zeros] in *.
+  cbn [nthr stacks spin pyinit pycount libs bad zeros gil] in *.
 
 Ltac split_ifs :=
   repeat match goal with
@@ -32,13 +33,44 @@ Ltac split_ifs :=
          | |- context [match ?c with CCall _ => _ | COk => _ | CFail => _ end] => destruct c
          end.
 
-Lemma step_nthr s tc : nthr (step s tc) = nthr s.
+Lemma step_nthr s tc : nthr (cstep s tc) = nthr s.
 Proof. destruct tc as [t c]. step_cases s t c; split_ifs; simp_state; split_ifs; reflexivity. Qed.
 
-Lemma step_other s t c t' : t' <> t -> stacks (step s (t, c)) t' = stacks s t'.
+Lemma step_other s t c t' : t' <> t -> stacks (cstep s (t, c)) t' = stacks s t'.
 Proof.
   intros N. step_cases s t c; split_ifs; simp_state; split_ifs; simp_state;
     rewrite ?updf_other by exact N; reflexivity.
+Qed.
+
+(* the core step never touches the GIL field *)
+Lemma cstep_gil s tc : gil (cstep s tc) = gil s.
+Proof. destruct tc as [t c]. step_cases s t c; split_ifs; simp_state; split_ifs; reflexivity. Qed.
+
+(* [step] is the core step wrapped into the GIL bookkeeping; with the exits of
+   _cffi_initialize_python as they are (both release the GIL: Gen.gen_init_exits) nobody ever
+   keeps the GIL, and the two coincide *)
+Lemma step_cases s tc : step s tc = s \/ step s tc = cstep s tc.
+Proof.
+  unfold step, step_gen, keeps_gil. change gen_switch_in_success with true.
+  change gen_init_exits with (true, true). cbn [fst snd negb].
+  destruct (gil_blocked s (fst tc)); [left; reflexivity | right].
+  fold cstep. destruct (fst tc <? nthr s); cbn [andb]; [|reflexivity].
+  destruct (stacks s (fst tc)) as [| [l p] r]; [reflexivity|]. destruct p; reflexivity.
+Qed.
+
+Lemma step_cstep s tc : gil s = None -> step s tc = cstep s tc.
+Proof.
+  intros G. unfold step, step_gen, keeps_gil, gil_blocked. rewrite G. change gen_switch_in_success with true.
+  change gen_init_exits with (true, true). cbn [fst snd negb]. fold cstep.
+  destruct (fst tc <? nthr s); cbn [andb]; [|reflexivity].
+  destruct (stacks s (fst tc)) as [| [l p] r]; [reflexivity|]. destruct p; reflexivity.
+Qed.
+
+Lemma run_cstep n sched : run n sched = fold_left cstep sched (init n) /\ gil (run n sched) = None.
+Proof.
+  unfold run. generalize (init n) (eq_refl : gil (init n) = None).
+  induction sched as [| tc sched IH]; intros s G; cbn [fold_left]; [auto|].
+  rewrite (step_cstep s tc G). apply IH. rewrite cstep_gil. exact G.
 Qed.
 
 (* ------------------------------------------------------------------ A: shape of the stacks *)
@@ -46,7 +78,7 @@ Record InvA (s : state) : Prop := {
   a_idle : forall t, nthr s <= t -> stacks s t = [];
   a_mid : forall t, Forall (fun f => midpc (snd f) = true) (tl (stacks s t)) }.
 
-Lemma stepA s tc : InvA s -> InvA (step s tc).
+Lemma stepA s tc : InvA s -> InvA (cstep s tc).
 Proof.
   intros [I M]. destruct tc as [t c]. constructor.
   - intros t' L. rewrite step_nthr in L. destruct (Nat.eqb_spec t' t).
@@ -108,7 +140,7 @@ Qed.
 
 Ltac stk := rewrite ?updf_same; intros; rewrite ?updf_other by assumption; try reflexivity.
 
-Lemma stepB s tc : InvA s -> InvB s -> InvB (step s tc).
+Lemma stepB s tc : InvA s -> InvB s -> InvB (cstep s tc).
 Proof.
   intros A B. destruct tc as [t c]. ustep. cbv beta iota zeta.
   destruct (t <? nthr s) eqn:Ht; cbn [negb]; [|exact B].
